@@ -181,4 +181,801 @@ theorem spFreeA_holds {p : SP} {s : AS} {o : List Id}
   simp only [SP.owned, List.count_cons, List.count_append] at this ⊢
   omega
 
+/-! ## mdict -/
+
+def optList : Option Id → List Id
+  | none => []
+  | some b => [b]
+
+theorem MEl.blocks_eq (m : MEl) : m.blocks = m.kblk :: (optList m.vblk ++ [m.el]) := by
+  unfold MEl.blocks optList
+  cases m.vblk <;> rfl
+
+/-- every entry of the tree has its element record -/
+def MD.linked (d : MD) : Prop := ∀ e, e ∈ d.tree.entries → (d.elOf e.obj).isSome
+
+theorem lookup_mem_entries {t : CB} {k : Key} {e : Entry} (h : lookup t.eroot k = some e) :
+    e ∈ t.entries := by
+  unfold lookup at h
+  cases hr : t.root with
+  | none => simp [CB.eroot, hr] at h
+  | some r =>
+    simp only [CB.eroot, hr, Option.map_some] at h
+    split at h
+    · cases h
+      have := rawLookup_mem r.erase k
+      simpa [CB.entries, hr, NT.erase_entries] using this
+    · cases h
+
+/-- replacing the value of a found element: its old value block goes, the new one comes -/
+theorem updVal_blocks (id : Id) (vb : Option Id) (v : Val) (els : List MEl) (m : MEl)
+    (h : els.find? (·.el == id) = some m) (a : Id) :
+    (optList m.vblk).count a + ((updVal id vb v els).flatMap MEl.blocks).count a =
+    (optList vb).count a + (els.flatMap MEl.blocks).count a := by
+  induction els with
+  | nil => simp at h
+  | cons x xs ih =>
+    simp only [List.find?_cons] at h
+    by_cases hx : (x.el == id) = true
+    · simp only [hx, Option.some.injEq] at h
+      subst h
+      simp only [updVal, hx, ↓reduceIte, List.flatMap_cons, List.count_append, MEl.blocks_eq,
+        List.count_cons]
+      omega
+    · simp only [hx] at h
+      have := ih h
+      simp only [updVal, hx, Bool.false_eq_true, ↓reduceIte, List.flatMap_cons, List.count_append] at this ⊢
+      omega
+
+theorem updVal_find (id : Id) (vb : Option Id) (v : Val) (els : List MEl) (j : Id) :
+    ((updVal id vb v els).find? (·.el == j)).isSome = (els.find? (·.el == j)).isSome := by
+  induction els with
+  | nil => rfl
+  | cons x xs ih =>
+    by_cases hx : (x.el == id) = true
+    · simp only [updVal, hx, ↓reduceIte, List.find?_cons]
+      by_cases hj : (x.el == j) = true <;> simp [hj]
+    · simp only [updVal, hx, Bool.false_eq_true, ↓reduceIte, List.find?_cons]
+      by_cases hj : (x.el == j) = true <;> simp [hj, ih]
+
+theorem mdNewA_none {s s' : AS} (h : mdNewA s = (none, s')) : s'.live = s.live := by
+  unfold mdNewA at h
+  split at h
+  · next s1 e => cases h; exact (allocS_none e).1
+  · next b s1 e =>
+    split at h
+    · next s2 e2 =>
+      cases h
+      rw [freeS_live, cbCreateA_none e2, (allocS_some e).1, List.erase_cons_head]
+    · cases h
+
+theorem mdNewA_some {s s' : AS} {d : MD} (h : mdNewA s = (some d, s')) :
+    d.els = [] ∧ d.tree.root = none ∧ ∀ o, Holds s o → Holds s' (d.owned ++ o) := by
+  unfold mdNewA at h
+  split at h
+  · cases h
+  · next b s1 e =>
+    split at h
+    · cases h
+    · next t s2 e2 =>
+      cases h
+      obtain ⟨hr, ht⟩ := cbCreateA_some e2
+      refine ⟨rfl, hr, fun o ho => ?_⟩
+      apply (ht _ (ho.alloc e)).congr
+      simp only [MD.owned]
+      perm_blocks
+
+theorem mdValCopyA_none {v : Val} {s s' : AS} (h : mdValCopyA v s = (none, s')) :
+    s'.live = s.live := by
+  unfold mdValCopyA at h
+  split at h
+  · cases h
+  · split at h
+    · next s1 e => cases h; exact (allocS_none e).1
+    · cases h
+
+theorem mdValCopyA_some {v : Val} {vb : Option Id} {s s' : AS}
+    (h : mdValCopyA v s = (some vb, s')) : s'.live = optList vb ++ s.live := by
+  unfold mdValCopyA at h
+  split at h
+  · cases h; rfl
+  · split at h
+    · cases h
+    · next b s1 e => cases h; simpa [optList] using (allocS_some e).1
+
+theorem freeOptS_live_head (vb : Option Id) (s : AS) (L : List Id)
+    (h : s.live = optList vb ++ L) : (freeOptS vb s).live = L := by
+  cases vb with
+  | none => simpa [freeOptS, optList] using h
+  | some b => simp [freeOptS, optList, h]
+
+/-- **mdict_put_str, failure**: `false` ⇒ the dict is unchanged and the allocator holds exactly
+    what it held before: value copy, key copy and element obtained in this call were released -/
+theorem mdPutA_false {d d' : MD} {k : Key} {v : Val} {s s' : AS}
+    (h : mdPutA d k v s = ((false, d'), s')) : d' = d ∧ s'.live = s.live := by
+  unfold mdPutA at h
+  split at h
+  · next s1 e1 => cases h; exact ⟨rfl, mdValCopyA_none e1⟩
+  · next vb s1 e1 =>
+    have hv := mdValCopyA_some e1
+    split at h
+    · cases h
+    · split at h
+      · next s2 e2 =>
+        cases h
+        refine ⟨rfl, ?_⟩
+        apply freeOptS_live_head
+        rw [(allocS_none e2).1, hv]
+      · next kb s2 e2 =>
+        split at h
+        · next s3 e3 =>
+          cases h
+          refine ⟨rfl, ?_⟩
+          apply freeOptS_live_head
+          rw [freeS_live, (allocS_none e3).1, (allocS_some e2).1, List.erase_cons_head, hv]
+        · next eb s3 e3 =>
+          split at h
+          · next t4 s4 e4 =>
+            cases h
+            refine ⟨rfl, ?_⟩
+            apply freeOptS_live_head
+            rw [freeS_live, freeS_live, (cbInsertA_false e4).2, (allocS_some e3).1,
+              List.erase_cons_head, (allocS_some e2).1, List.erase_cons_head, hv]
+          · cases h
+
+theorem Holds.of_live {s : AS} {o : List Id} (h : s.live.Perm o) : Holds s o := Holds.of_perm h
+
+/-- **mdict_put_str, success**: every block obtained is owned by the dict, the replaced value
+    block was released -/
+theorem mdPutA_true {d d' : MD} {k : Key} {v : Val} {s s' : AS}
+    (h : mdPutA d k v s = ((true, d'), s')) (hl : d.linked) :
+    d'.linked ∧ d'.hdr = d.hdr ∧ ∀ o, Holds s (d.owned ++ o) → Holds s' (d'.owned ++ o) := by
+  unfold mdPutA at h
+  split at h
+  · cases h
+  · next vb s1 e1 =>
+    have hv := mdValCopyA_some e1
+    split at h
+    · next e he =>
+      cases h
+      have hmem := lookup_mem_entries he
+      have hfound := hl e hmem
+      obtain ⟨m, hm⟩ := Option.isSome_iff_exists.mp hfound
+      refine ⟨?_, rfl, fun o ho => ?_⟩
+      · intro e' he'
+        have := hl e' he'
+        simpa [MD.elOf, MD.setVal, updVal_find] using this
+      · have hold : d.oldVblk e.obj = m.vblk := by simp [MD.oldVblk, hm]
+        have hs1 : Holds s1 (optList vb ++ (d.owned ++ o)) := by
+          intro a; rw [hv, List.count_append, List.count_append, ho a]
+        rw [hold]
+        have hb := updVal_blocks e.obj vb v d.els m (by simpa [MD.elOf] using hm)
+        cases hmv : m.vblk with
+        | none =>
+          simp only [freeOptS]
+          apply hs1.congr
+          apply List.perm_iff_count.mpr; intro a
+          have := hb a
+          simp only [hmv, optList, List.count_nil, MD.owned, MD.setVal, List.count_cons,
+            List.count_append] at this ⊢
+          omega
+        | some ob =>
+          simp only [freeOptS]
+          apply Holds.free_perm hs1
+          apply List.perm_iff_count.mpr; intro a
+          have := hb a
+          simp only [hmv, optList, List.count_nil, MD.owned, MD.setVal, List.count_cons,
+            List.count_append] at this ⊢
+          omega
+    · next hlk =>
+      split at h
+      · cases h
+      · next kb s2 e2 =>
+        split at h
+        · cases h
+        · next eb s3 e3 =>
+          split at h
+          · cases h
+          · next t' s4 e4 =>
+            cases h
+            obtain ⟨hi, hh, ht⟩ := cbInsertA_true e4
+            refine ⟨?_, rfl, fun o ho => ?_⟩
+            · intro e' he'
+              have hp := (cbInsertA_entries e4).subset he'
+              simp only [List.mem_cons] at hp
+              rcases hp with rfl | hp
+              · simp [MD.elOf, List.find?_append]
+              · have := hl e' hp
+                obtain ⟨m, hm⟩ := Option.isSome_iff_exists.mp this
+                simp only [MD.elOf] at hm
+                simp [MD.elOf, List.find?_append, hm]
+            · have h3 : Holds s3 (d.tree.owned ++ (eb :: kb :: (optList vb ++ (d.hdr :: (d.els.flatMap MEl.blocks ++ o))))) := by
+                intro a
+                rw [(allocS_some e3).1, (allocS_some e2).1, hv]
+                have := ho a
+                simp only [MD.owned, List.count_cons, List.count_append] at this ⊢
+                omega
+              apply (ht _ h3).congr
+              apply List.perm_iff_count.mpr; intro a
+              simp only [MD.owned, List.flatMap_append, List.flatMap_cons, List.flatMap_nil,
+                MEl.blocks_eq, List.count_cons, List.count_append, List.count_nil, List.append_nil]
+              omega
+
+theorem find_eraseP_blocks (els : List MEl) (id : Id) (a : Id) :
+    (els.flatMap MEl.blocks).count a =
+    (blocksOfL els id).count a +
+      ((els.eraseP (fun m : MEl => m.el == id)).flatMap MEl.blocks).count a := by
+  induction els with
+  | nil => simp [blocksOfL]
+  | cons x xs ih =>
+    by_cases hx : (x.el == id) = true
+    · simp [blocksOfL, hx]
+    · have hx' : (x.el == id) = false := by simpa using hx
+      simp only [blocksOfL, List.find?_cons, hx', List.eraseP_cons, cond_false, List.flatMap_cons,
+        List.count_append] at ih ⊢
+      rw [ih]
+      omega
+
+/-- **mdict_del_key**: never allocates; key, value, element and tree node of the removed pair
+    are returned -/
+theorem mdDelA_holds {d d' : MD} {k : Key} {ok : Bool} {s s' : AS}
+    (h : mdDelA d k s = ((ok, d'), s')) :
+    s'.fails = s.fails ∧ d'.hdr = d.hdr ∧
+    ∀ o, Holds s (d.owned ++ o) → Holds s' (d'.owned ++ o) := by
+  unfold mdDelA at h
+  split at h
+  · cases h; exact ⟨rfl, rfl, fun o ho => ho⟩
+  · next e he =>
+    split at h
+    next r t' s1 e1 =>
+    cases h
+    obtain ⟨_, _, _, _, hf, ht⟩ := cbDeleteA_spec e1
+    refine ⟨by simpa using hf, rfl, fun o ho => ?_⟩
+    apply (ht (d.hdr :: ((d.els.eraseP (·.el == e.obj)).flatMap MEl.blocks ++ o)) ?_).congr
+    · simp only [MD.owned]; perm_blocks
+    · apply Holds.freeAll_perm _ ho
+      apply List.perm_iff_count.mpr; intro a
+      simp only [MD.owned, MD.blocksOf, List.count_cons, List.count_append]
+      rw [find_eraseP_blocks d.els e.obj a]
+      omega
+
+theorem mdFreeA_holds {d : MD} {s : AS} {o : List Id} (h : Holds s (d.owned ++ o)) :
+    Holds (mdFreeA d s) o := by
+  unfold mdFreeA
+  apply Holds.free_head (b := d.hdr)
+  apply cbDestroyA_holds
+  apply Holds.freeAll_perm _ h
+  simp only [MD.owned]
+  perm_blocks
+
+/-! ### urldecode -/
+
+theorem urldecStrA_none {src : List UInt8} {s s' : AS} (h : urldecStrA src s = (none, s')) :
+    s'.live = s.live := by
+  unfold urldecStrA at h
+  split at h
+  · next s1 e => cases h; exact (allocS_none e).1
+  · next b s1 e =>
+    split at h
+    · cases h; rw [freeS_live, (allocS_some e).1, List.erase_cons_head]
+    · cases h
+
+theorem urldecStrA_some {src : List UInt8} {b : Id} {x r : List UInt8} {s s' : AS}
+    (h : urldecStrA src s = (some (b, x, r), s')) :
+    s'.live = b :: s.live ∧ urldecStr src = some (x, r) := by
+  unfold urldecStrA at h
+  split at h
+  · cases h
+  · next b' s1 e =>
+    split at h
+    · cases h
+    · next d rest hd => cases h; exact ⟨(allocS_some e).1, hd⟩
+
+theorem urlValueA_none {r : List UInt8} {s s' : AS} (h : urlValueA r s = (none, s')) :
+    s'.live = s.live := by
+  unfold urlValueA at h
+  split at h
+  · split at h
+    · next s2 e => cases h; exact urldecStrA_none e
+    · cases h
+  · cases h
+
+theorem urlValueA_some {r r2 : List UInt8} {vb : Option Id} {v : Val} {s s' : AS}
+    (h : urlValueA r s = (some (vb, v, r2), s')) : s'.live = optList vb ++ s.live := by
+  unfold urlValueA at h
+  split at h
+  · split at h
+    · cases h
+    · next vb' v' r2' s2 e => cases h; simpa [optList] using (urldecStrA_some e).1
+  · cases h; rfl
+
+/-- **one pair of mdict_urldecode, failure**: the dict is untouched (by construction) and the
+    allocator holds exactly what it held before this pair — decoded key, decoded value and
+    element obtained in this round were all released -/
+theorem mdUrlPairA_none {d : MD} {src : List UInt8} {s s' : AS}
+    (h : mdUrlPairA d src s = (none, s')) : s'.live = s.live := by
+  unfold mdUrlPairA at h
+  split at h
+  · next s1 e1 => cases h; exact urldecStrA_none e1
+  · next kb k r s1 e1 =>
+    have hk := (urldecStrA_some e1).1
+    split at h
+    · next s2 e2 =>
+      cases h
+      rw [freeS_live, urlValueA_none e2, hk, List.erase_cons_head]
+    · next vb v r2 s2 e2 =>
+      have hv := urlValueA_some e2
+      simp only at h
+      split at h
+      · cases h
+      · split at h
+        · next s3 e3 =>
+          cases h
+          apply freeOptS_live_head
+          rw [freeS_live, (allocS_none e3).1, hv, hk]
+          cases vb with
+          | none => simp [optList]
+          | some b =>
+            simp only [optList, List.cons_append, List.nil_append]
+            by_cases hb : b = kb
+            · subst hb; simp
+            · have : (b == kb) = false := by simpa using hb
+              simp [this]
+        · next eb s3 e3 =>
+          split at h
+          · next t4 s4 e4 =>
+            cases h
+            rw [freeS_live]
+            have hl4 : s4.live = eb :: (optList vb ++ kb :: s.live) := by
+              rw [(cbInsertA_false e4).2, (allocS_some e3).1, hv, hk]
+            cases vb with
+            | none =>
+              simp only [freeOptS, freeS_live, hl4, optList, List.nil_append]
+              exact erase_2nd eb kb s.live
+            | some b =>
+              simp only [freeOptS, freeS_live, hl4, optList, List.cons_append, List.nil_append]
+              exact erase_3_rev eb b kb s.live
+          · cases h
+
+/-- **one pair of mdict_urldecode, success** -/
+theorem mdUrlPairA_some {d d1 : MD} {src rest : List UInt8} {s s' : AS}
+    (h : mdUrlPairA d src s = (some (d1, rest), s')) (hl : d.linked) :
+    d1.linked ∧ d1.hdr = d.hdr ∧ ∀ o, Holds s (d.owned ++ o) → Holds s' (d1.owned ++ o) := by
+  unfold mdUrlPairA at h
+  split at h
+  · cases h
+  · next kb k r s1 e1 =>
+    have hk := (urldecStrA_some e1).1
+    split at h
+    · cases h
+    · next vb v r2 s2 e2 =>
+      have hv := urlValueA_some e2
+      simp only at h
+      split at h
+      · next e he =>
+        cases h
+        have hmem := lookup_mem_entries he
+        obtain ⟨m, hm⟩ := Option.isSome_iff_exists.mp (hl e hmem)
+        refine ⟨?_, rfl, fun o ho => ?_⟩
+        · intro e' he'
+          have := hl e' he'
+          simpa [MD.elOf, MD.setVal, updVal_find] using this
+        · have hold : d.oldVblk e.obj = m.vblk := by simp [MD.oldVblk, hm]
+          have hs2 : Holds s2 (optList vb ++ kb :: (d.owned ++ o)) := by
+            intro a; rw [hv, hk]
+            have := ho a
+            simp only [List.count_cons, List.count_append] at this ⊢
+            omega
+          rw [hold]
+          have hb := updVal_blocks e.obj vb v d.els m (by simpa [MD.elOf] using hm)
+          cases hmv : m.vblk with
+          | none =>
+            simp only [freeOptS]
+            apply Holds.free_perm hs2
+            apply List.perm_iff_count.mpr; intro a
+            have := hb a
+            simp only [hmv, optList, List.count_nil, MD.owned, MD.setVal, List.count_cons,
+              List.count_append] at this ⊢
+            omega
+          | some ob =>
+            simp only [freeOptS]
+            apply Holds.free_perm (o := kb :: (d.setVal e.obj vb v).owned ++ o)
+            · apply Holds.free_perm hs2
+              apply List.perm_iff_count.mpr; intro a
+              have := hb a
+              simp only [hmv, optList, List.count_nil, MD.owned, MD.setVal, List.count_cons,
+                List.count_append] at this ⊢
+              omega
+            · simp
+      · next hlk =>
+        split at h
+        · cases h
+        · next eb s3 e3 =>
+          split at h
+          · cases h
+          · next t' s4 e4 =>
+            cases h
+            obtain ⟨hi, hh, ht⟩ := cbInsertA_true e4
+            refine ⟨?_, rfl, fun o ho => ?_⟩
+            · intro e' he'
+              have hp := (cbInsertA_entries e4).subset he'
+              simp only [List.mem_cons] at hp
+              rcases hp with rfl | hp
+              · simp [MD.elOf, List.find?_append]
+              · have := hl e' hp
+                obtain ⟨m, hm⟩ := Option.isSome_iff_exists.mp this
+                simp only [MD.elOf] at hm
+                simp [MD.elOf, List.find?_append, hm]
+            · have h3 : Holds s3 (d.tree.owned ++ (eb :: (optList vb ++ kb :: (d.hdr :: (d.els.flatMap MEl.blocks ++ o))))) := by
+                intro a
+                rw [(allocS_some e3).1, hv, hk]
+                have := ho a
+                simp only [MD.owned, List.count_cons, List.count_append] at this ⊢
+                omega
+              apply (ht _ h3).congr
+              apply List.perm_iff_count.mpr; intro a
+              simp only [MD.owned, List.flatMap_append, List.flatMap_cons, List.flatMap_nil,
+                MEl.blocks_eq, List.count_cons, List.count_append, List.count_nil, List.append_nil]
+              omega
+
+/-- completed rounds of `mdict_urldecode` -/
+inductive UrlSteps : MD → List UInt8 → AS → MD → List UInt8 → AS → Prop
+  | refl (d src s) : UrlSteps d src s d src s
+  | step {d src s d1 rest s1 d' src' s'} :
+      mdUrlPairA d src s = (some (d1, rest), s1) → UrlSteps d1 rest s1 d' src' s' →
+      UrlSteps d src s d' src' s'
+
+/-- **mdict_urldecode, failure**: the dict returned is the dict after the rounds that completed,
+    and the failing round left no trace in it nor in the allocator -/
+theorem mdUrldecodeA_false {fuel : Nat} {d d' : MD} {src : List UInt8} {s s' : AS}
+    (h : mdUrldecodeA fuel d src s = ((false, d'), s')) :
+    ∃ src1 s1, UrlSteps d src s d' src1 s1 ∧ mdUrlPairA d' src1 s1 = (none, s') ∧
+      s'.live = s1.live := by
+  induction fuel generalizing d src s with
+  | zero => simp [mdUrldecodeA] at h
+  | succ n ih =>
+    simp only [mdUrldecodeA] at h
+    split at h
+    · cases h
+    · split at h
+      · next s1 e1 =>
+        cases h
+        exact ⟨src, s, UrlSteps.refl _ _ _, e1, mdUrlPairA_none e1⟩
+      · next d1 rest s1 e1 =>
+        obtain ⟨src1, s2, hs, hp, hl⟩ := ih h
+        exact ⟨src1, s2, UrlSteps.step e1 hs, hp, hl⟩
+
+/-- **mdict_urldecode, ownership**: whether it succeeds or fails, every block still allocated
+    is owned by the dict -/
+theorem mdUrldecodeA_holds {fuel : Nat} {d d' : MD} {src : List UInt8} {ok : Bool} {s s' : AS}
+    (h : mdUrldecodeA fuel d src s = ((ok, d'), s')) (hl : d.linked) :
+    d'.linked ∧ d'.hdr = d.hdr ∧ ∀ o, Holds s (d.owned ++ o) → Holds s' (d'.owned ++ o) := by
+  induction fuel generalizing d src s with
+  | zero => simp only [mdUrldecodeA] at h; cases h; exact ⟨hl, rfl, fun o ho => ho⟩
+  | succ n ih =>
+    simp only [mdUrldecodeA] at h
+    split at h
+    · cases h; exact ⟨hl, rfl, fun o ho => ho⟩
+    · split at h
+      · next s1 e1 =>
+        cases h
+        exact ⟨hl, rfl, fun o ho => ho.of_live_eq (mdUrlPairA_none e1)⟩
+      · next d1 rest s1 e1 =>
+        obtain ⟨hl1, hh1, ht1⟩ := mdUrlPairA_some e1 hl
+        obtain ⟨hl2, hh2, ht2⟩ := ih h hl1
+        exact ⟨hl2, hh2.trans hh1, fun o ho => ht2 o (ht1 o ho)⟩
+
+
+/-! ## validity: the C06 tree invariant plus "the objects of the tree are exactly the records" -/
+
+/-- bare tree: well formed, keys satisfy C06's precondition -/
+def CB.ok (t : CB) : Prop := C06.Inv t.eroot ∧ NTZ t.eroot
+
+theorem cbCreateA_ok {s s' : AS} {t : CB} (h : cbCreateA s = (some t, s')) : t.ok := by
+  have hr := (cbCreateA_some h).1
+  simp [CB.ok, CB.eroot, hr, C06.Inv, NTZ, walk]
+
+theorem cbInsertA_ok {t t' : CB} {e : Entry} {ok : Bool} {s s' : AS}
+    (h : cbInsertA t e s = ((ok, t'), s')) (hv : t.ok) (hk : NoTrailingZero e.key) : t'.ok := by
+  cases ok with
+  | false => rw [(cbInsertA_false h).1]; exact hv
+  | true =>
+    obtain ⟨hi, _, _⟩ := cbInsertA_true h
+    obtain ⟨a, b, _⟩ := (insert_refines t.eroot hv.1 hv.2 e hk).2 _ hi
+    exact ⟨a, b⟩
+
+theorem cbDeleteA_ok {t t' : CB} {k : Key} {r : Option Entry} {s s' : AS}
+    (h : cbDeleteA t k s = ((r, t'), s')) (hv : t.ok) : t'.ok := by
+  obtain ⟨_, h2, h3, _⟩ := cbDeleteA_spec h
+  cases r with
+  | none => rw [(h3 rfl).1]; exact hv
+  | some e =>
+    obtain ⟨_, _, c, d, _⟩ := (delete_refines t.eroot hv.1 k).2 e t'.eroot (h2 e rfl)
+    exact ⟨c, d hv.2⟩
+
+/-- the entry a delete removes is the one a lookup of the same key finds -/
+theorem cbDeleteA_of_lookup {t t' : CB} {k : Key} {r : Option Entry} {e : Entry} {s s' : AS}
+    (h : cbDeleteA t k s = ((r, t'), s')) (hv : t.ok) (hl : lookup t.eroot k = some e) :
+    ∃ e2, r = some e2 ∧ e2.obj = e.obj := by
+  obtain ⟨h1, h2, _⟩ := cbDeleteA_spec h
+  have habs : absMap t.eroot k = some e.obj := by simp [absMap, hl]
+  cases r with
+  | none =>
+    have : C06.delete t.eroot k = none := by
+      cases hd : C06.delete t.eroot k with
+      | none => rfl
+      | some p => simp [hd] at h1
+    have := (delete_refines t.eroot hv.1 k).1.mp this
+    rw [habs] at this; cases this
+  | some e2 =>
+    obtain ⟨_, b, _⟩ := (delete_refines t.eroot hv.1 k).2 e2 t'.eroot (h2 e2 rfl)
+    rw [habs] at b
+    exact ⟨e2, rfl, (Option.some.inj b).symm⟩
+
+/-- strpool: tree well formed, and the objects stored in the tree are exactly the `PStr` blocks -/
+def SP.ok (p : SP) : Prop :=
+  p.tree.ok ∧ (p.tree.entries.map (·.obj)).Perm (p.refs.map (·.1))
+
+theorem spCreateA_ok {s s' : AS} {p : SP} (h : spCreateA s = (some p, s')) : p.ok := by
+  obtain ⟨hr, ht, _, _⟩ := spCreateA_some h
+  refine ⟨by simp [CB.ok, CB.eroot, ht, C06.Inv, NTZ, walk], ?_⟩
+  simp [CB.entries, ht, hr]
+
+theorem spGetA_ok {p p' : SP} {k : Key} {r : Option Id} {s s' : AS}
+    (h : spGetA p k s = ((r, p'), s')) (hv : p.ok) (hk : NoTrailingZero k) : p'.ok := by
+  cases r with
+  | none => rw [(spGetA_null h).1]; exact hv
+  | some id =>
+    unfold spGetA at h
+    split at h
+    · cases h
+      exact ⟨hv.1, by simpa [setRef_ids] using hv.2⟩
+    · split at h
+      · cases h
+      · next b s1 e1 =>
+        split at h
+        · cases h
+        · next t' s2 e2 =>
+          cases h
+          refine ⟨cbInsertA_ok e2 hv.1 hk, ?_⟩
+          have p1 := (cbInsertA_entries e2).map (·.obj)
+          refine p1.trans ?_
+          simp only [List.map_cons, List.map_append, List.map_nil]
+          exact (List.Perm.cons _ hv.2).trans (List.perm_append_singleton _ _).symm
+
+theorem spDecrefA_ok {p p' : SP} {id : Id} {rel : Bool} {s s' : AS}
+    (h : spDecrefA p id s = ((rel, p'), s')) (hv : p.ok) : p'.ok := by
+  unfold spDecrefA at h
+  split at h
+  · cases h; exact hv
+  · next n hn =>
+    split at h
+    · cases h; exact ⟨hv.1, by simpa [setRef_ids] using hv.2⟩
+    · split at h
+      · cases h; exact hv
+      · next k hk =>
+        split at h
+        next r t' s1 e1 =>
+        cases h
+        refine ⟨cbDeleteA_ok e1 hv.1, ?_⟩
+        -- the entry found by `strOf` is the one the delete removes
+        simp only [SP.strOf, Option.map_eq_some_iff] at hk
+        obtain ⟨x, hx, hxk⟩ := hk
+        have hxm := List.mem_of_find?_eq_some hx
+        have hxo : x.obj = id := by simpa using List.find?_some hx
+        have hw : (⟨k, id⟩ : Entry) ∈ walk p.tree.eroot := by
+          rw [CB.eroot_entries]; cases x; simp_all
+        have habs := (absMap_some_iff p.tree.eroot hv.1.1 k id).mpr hw
+        have hlk : ∃ e, lookup p.tree.eroot k = some e ∧ e.obj = id := by
+          simp only [absMap, Option.map_eq_some_iff] at habs; exact habs
+        obtain ⟨e, hle, heo⟩ := hlk
+        obtain ⟨e2, hr, he2⟩ := cbDeleteA_of_lookup e1 hv.1 hle
+        subst hr
+        have pe := (cbDeleteA_entries e1).map (·.obj)
+        simp only [List.map_cons] at pe
+        rw [eraseP_ids]
+        have hid : e2.obj = id := he2.trans heo
+        rw [hid] at pe
+        have hmem : id ∈ p.refs.map (·.1) := refOf_mem hn
+        exact List.Perm.cons_inv ((pe.symm.trans hv.2).trans (List.perm_cons_erase hmem))
+
+
+/-- mdict: tree well formed, and the objects stored in the tree are exactly the element records -/
+def MD.ok (d : MD) : Prop :=
+  d.tree.ok ∧ (d.tree.entries.map (·.obj)).Perm (d.els.map (·.el))
+
+theorem find_isSome_of_mem_ids {els : List MEl} {id : Id} (h : id ∈ els.map (·.el)) :
+    (els.find? (·.el == id)).isSome := by
+  simp only [List.mem_map] at h
+  obtain ⟨m, hm, he⟩ := h
+  rw [List.find?_isSome]
+  exact ⟨m, hm, by simp [he]⟩
+
+theorem MD.ok.linked {d : MD} (h : d.ok) : d.linked := by
+  intro e he
+  have : e.obj ∈ d.tree.entries.map (·.obj) := List.mem_map.mpr ⟨e, he, rfl⟩
+  exact find_isSome_of_mem_ids (h.2.subset this)
+
+theorem updVal_ids (id : Id) (vb : Option Id) (v : Val) (els : List MEl) :
+    (updVal id vb v els).map (·.el) = els.map (·.el) := by
+  induction els with
+  | nil => rfl
+  | cons x xs ih =>
+    by_cases hx : (x.el == id) = true
+    · simp [updVal, hx]
+    · simp [updVal, hx, ih]
+
+theorem eraseP_el_ids (els : List MEl) (id : Id) :
+    (els.eraseP (·.el == id)).map (·.el) = (els.map (·.el)).erase id := by
+  induction els with
+  | nil => rfl
+  | cons x xs ih =>
+    by_cases h : x.el = id
+    · simp [h]
+    · have : (x.el == id) = false := by simpa using h
+      simp [this, ih]
+
+theorem mdNewA_ok {s s' : AS} {d : MD} (h : mdNewA s = (some d, s')) : d.ok := by
+  obtain ⟨he, ht, _⟩ := mdNewA_some h
+  refine ⟨by simp [CB.ok, CB.eroot, ht, C06.Inv, NTZ, walk], ?_⟩
+  simp [CB.entries, ht, he]
+
+theorem mdPutA_ok {d d' : MD} {k : Key} {v : Val} {r : Bool} {s s' : AS}
+    (h : mdPutA d k v s = ((r, d'), s')) (hv : d.ok) (hk : NoTrailingZero k) : d'.ok := by
+  cases r with
+  | false => rw [(mdPutA_false h).1]; exact hv
+  | true =>
+    unfold mdPutA at h
+    split at h
+    · cases h
+    · split at h
+      · cases h
+        exact ⟨hv.1, by simpa [MD.setVal, updVal_ids] using hv.2⟩
+      · split at h
+        · cases h
+        · split at h
+          · cases h
+          · next eb s3 e3 =>
+            split at h
+            · cases h
+            · next t' s4 e4 =>
+              cases h
+              refine ⟨cbInsertA_ok e4 hv.1 hk, ?_⟩
+              have p1 := (cbInsertA_entries e4).map (·.obj)
+              refine p1.trans ?_
+              simp only [List.map_cons, List.map_append, List.map_nil]
+              exact (List.Perm.cons _ hv.2).trans (List.perm_append_singleton _ _).symm
+
+theorem mdDelA_ok {d d' : MD} {k : Key} {r : Bool} {s s' : AS}
+    (h : mdDelA d k s = ((r, d'), s')) (hv : d.ok) : d'.ok := by
+  unfold mdDelA at h
+  split at h
+  · cases h; exact hv
+  · next e he =>
+    split at h
+    next r2 t' s1 e1 =>
+    cases h
+    refine ⟨cbDeleteA_ok e1 hv.1, ?_⟩
+    obtain ⟨e2, hr, he2⟩ := cbDeleteA_of_lookup e1 hv.1 he
+    subst hr
+    have pe := (cbDeleteA_entries e1).map (·.obj)
+    simp only [List.map_cons] at pe
+    rw [he2] at pe
+    rw [eraseP_el_ids]
+    have hmem : e.obj ∈ d.els.map (·.el) :=
+      hv.2.subset (List.mem_map.mpr ⟨e, lookup_mem_entries he, rfl⟩)
+    exact List.Perm.cons_inv ((pe.symm.trans hv.2).trans (List.perm_cons_erase hmem))
+
+/-- decoded keys must satisfy C06's precondition for the tree to stay well formed; the loop of
+    `mdict_urldecode` meets every key of the text, so the hypothesis is on the text -/
+def urlKeysOk (fuel : Nat) (src : List UInt8) : Prop :=
+  match fuel with
+  | 0 => True
+  | fuel + 1 =>
+    if src.isEmpty then True else
+    match urldecStr src with
+    | none => True
+    | some (k, r) =>
+      NoTrailingZero k ∧
+      (if r.head? = some 61 then
+        match urldecStr r.tail with
+        | none => True
+        | some (_, r2) => urlKeysOk fuel (if r2.head? = some 38 then r2.tail else r2)
+       else urlKeysOk fuel (if r.head? = some 38 then r.tail else r))
+
+theorem mdUrlPairA_ok {d d1 : MD} {src rest : List UInt8} {s s' : AS}
+    (h : mdUrlPairA d src s = (some (d1, rest), s')) (hv : d.ok)
+    (hk : ∀ k r, urldecStr src = some (k, r) → NoTrailingZero k) : d1.ok := by
+  unfold mdUrlPairA at h
+  split at h
+  · cases h
+  · next kb k r s1 e1 =>
+    have hkk := hk k r (urldecStrA_some e1).2
+    split at h
+    · cases h
+    · simp only at h
+      split at h
+      · cases h
+        exact ⟨hv.1, by simpa [MD.setVal, updVal_ids] using hv.2⟩
+      · split at h
+        · cases h
+        · next eb s3 e3 =>
+          split at h
+          · cases h
+          · next t' s4 e4 =>
+            cases h
+            refine ⟨cbInsertA_ok e4 hv.1 hkk, ?_⟩
+            have p1 := (cbInsertA_entries e4).map (·.obj)
+            refine p1.trans ?_
+            simp only [List.map_cons, List.map_append, List.map_nil]
+            exact (List.Perm.cons _ hv.2).trans (List.perm_append_singleton _ _).symm
+
+
+theorem urlValueA_rest {r r2 : List UInt8} {vb : Option Id} {v : Val} {s s' : AS}
+    (h : urlValueA r s = (some (vb, v, r2), s')) :
+    (r.head? = some 61 ∧ ∃ x, urldecStr r.tail = some (x, r2)) ∨ (r.head? ≠ some 61 ∧ r2 = r) := by
+  unfold urlValueA at h
+  split at h
+  · next h61 =>
+    split at h
+    · cases h
+    · next vb' v' r2' s2 e => cases h; exact Or.inl ⟨h61, _, (urldecStrA_some e).2⟩
+  · next h61 => cases h; exact Or.inr ⟨h61, rfl⟩
+
+/-- where the next round starts -/
+theorem mdUrlPairA_rest {d d1 : MD} {src rest : List UInt8} {s s' : AS}
+    (h : mdUrlPairA d src s = (some (d1, rest), s')) :
+    ∃ k r, urldecStr src = some (k, r) ∧
+      ((r.head? = some 61 ∧ ∃ x r2, urldecStr r.tail = some (x, r2) ∧
+          rest = if r2.head? = some 38 then r2.tail else r2) ∨
+       (r.head? ≠ some 61 ∧ rest = if r.head? = some 38 then r.tail else r)) := by
+  unfold mdUrlPairA at h
+  split at h
+  · cases h
+  · next kb k r s1 e1 =>
+    refine ⟨k, r, (urldecStrA_some e1).2, ?_⟩
+    split at h
+    · cases h
+    · next vb v r2 s2 e2 =>
+      have hr := urlValueA_rest e2
+      simp only at h
+      have hrest : rest = if r2.head? = some 38 then r2.tail else r2 := by
+        split at h
+        · cases h; rfl
+        · split at h
+          · cases h
+          · split at h
+            · cases h
+            · cases h; rfl
+      rcases hr with ⟨h61, x, hx⟩ | ⟨h61, hr2⟩
+      · exact Or.inl ⟨h61, x, r2, hx, hrest⟩
+      · subst hr2; exact Or.inr ⟨h61, hrest⟩
+
+/-- **mdict_urldecode keeps the dict valid** (whether it succeeds or fails) -/
+theorem mdUrldecodeA_ok {fuel : Nat} {d d' : MD} {src : List UInt8} {r : Bool} {s s' : AS}
+    (h : mdUrldecodeA fuel d src s = ((r, d'), s')) (hv : d.ok) (hk : urlKeysOk fuel src) :
+    d'.ok := by
+  induction fuel generalizing d src s with
+  | zero => simp only [mdUrldecodeA] at h; cases h; exact hv
+  | succ n ih =>
+    simp only [mdUrldecodeA] at h
+    split at h
+    · cases h; exact hv
+    · next hne =>
+      split at h
+      · cases h; exact hv
+      · next d1 rest s1 e1 =>
+        obtain ⟨k, r0, hkr, hrest⟩ := mdUrlPairA_rest e1
+        simp only [urlKeysOk, hne, Bool.false_eq_true, ↓reduceIte, hkr] at hk
+        have hd1 : d1.ok := mdUrlPairA_ok e1 hv (by
+          intro k' r' hk'; rw [hkr] at hk'; cases hk'; exact hk.1)
+        apply ih h hd1
+        rcases hrest with ⟨h61, x, r2, hx, hr⟩ | ⟨h61, hr⟩
+        · have := hk.2
+          simp only [h61, ↓reduceIte, hx] at this
+          rw [hr]; exact this
+        · have := hk.2
+          simp only [h61, ↓reduceIte] at this
+          rw [hr]; exact this
+
 end Usual.C10
